@@ -31,12 +31,12 @@ CLAIMS = {
  "C05": ("printer/parser coverage rules on typed HIR + extracted combinator grammar",
          "Every field of every AST variant is printed; every trivia-carrying element a parser closure binds is moved, mapped or has its trivia read; elements bound to `_` "
          "consume constant text or nothing; no bound element reaches the tree only through a lossy Option combinator; swallow-all (`rest`) never occurs without a diagnostic; the file parser is all_consuming; case normalisation never touches "
-         "trivia. Partitioning of arbitrary text by the trivia parsers is not decided.", "§4 C05"),
+         "trivia; no parser function removes or replaces characters of source text it keeps. Partitioning of arbitrary text by the trivia parsers is not decided.", "§4 C05"),
  "C06": ("interprocedural label propagation (taint) over MIR to Assert/allocation/index/loop sinks, with dominating-guard discharge",
          "Every integer the program text controls (literals, evaluated expressions, config values, SymbolData::Number) is followed, field-based and across calls, "
          "to the panicking primitives of the shipped MIR: overflow/division/shift/negation asserts, allocation sizes, indices, loop trip counts; a site is discharged "
          "only by a recognised dominating guard (non-zero switch, constant range check) or a tabled bound. Also: no unwrap on literal conversion, no user string "
-         "into the asserting Identifier constructor, a finite pass bound with a diagnostic, no unwrap/expect on Result<_, Diagnostics> or on I/O results of the command-line path, an import-cycle check in front of the recursive expansion. Absence of all panics, "
+         "into the asserting Identifier constructor, a finite pass bound with a diagnostic, no unwrap/expect on Result<_, Diagnostics> or on I/O results of the command-line path, an import-cycle check in front of the recursive expansion that tests the very value it pushes, a char-boundary test in front of case-insensitive tags that a longer character can fold to. Absence of all panics, "
          "stack depth and termination of arbitrary programs are not decided.", "§4 C06"),
  "C07": ("structural rules on typed HIR + must-pass-through on MIR",
          "Decides the structural clauses only: polarity of `.if`, iteration domain and `index` binding of `.loop`, positional macro binding after the arity check, "
@@ -72,17 +72,17 @@ CLAIMS = {
          "Same completeness clause as C15 plus single-resolver agreement, per-segment usage spans, a per-pass reset of the usage database and a fixed, narrowest-first order among the definitions at a position; references and highlights select the same symbol definitions and answer each place once; the branch of an .if that is not taken is analysed in a scope of its own. Which occurrence binds where on concrete programs is not decided.", "§4 C15/C16"),
  "C17": ("label propagation BYTELEN → LSP positions; dominance and shape rules on HIR",
          "No UTF-8 byte length/offset becomes an LSP character in the formatting answer; formatting only without diagnostics; the language server and the CLI share one formatter "
-         "and the server uses default options; the edit loop advances its position tracker over deleted and unchanged chunks only, in merged edits too; no character-counting column of the code map reaches an edit position. The diff-to-edit result on concrete buffers is "
+         "and the server uses default options; the edit loop advances its position tracker over deleted and unchanged chunks only, in merged edits too; no character-counting column of the code map reaches an edit position; the diff is taken against the stored buffer itself. The diff-to-edit result on concrete buffers is "
          "not decided.", "§4 C17"),
  "C18": ("field-effect analysis on MIR + table agreement + shape rules on HIR",
          "Pending assertions are never mutated during a run; CPU flag masks and register keys agree with the 6502 and the guide; ram16 byte order; failure iff zero/unevaluable, "
          "success only at BRK after the assertions at that address; exit status 1 iff a test failed; memory accessors do not slice RAM unchecked; the assertion scan covers every pending element; relocated segments are loaded where the cpu runs them. The emulator itself is external.", "§4 C18"),
  "C19": ("guard-liveness must-analysis on MIR + shape rules on HIR (lock-coverage and stepping-shape clauses)",
          "In the machine thread every CPU-advancing call happens under a running-state guard taken before the state test; pause reads the program counter under the guard that "
-         "covers the store of Stopped(pc); the breakpoint test dominates every step of a free run and searches the shared list under its lock; next/stepIn/stepOut step under the same guard and stop through pause; next/stepOut follow the call depth (jsr/rts paired, not the stack pointer); breakpoints are kept per source file. All other interleavings and stepping on concrete programs are not decided.", "§4 C19"),
+         "covers the store of Stopped(pc); the breakpoint test dominates every step of a free run and searches the shared list under its lock, exempting only the address the machine was halted at; next/stepIn/stepOut step under the same guard and stop through pause; next/stepOut follow the call depth (jsr/rts paired, not the stack pointer); breakpoints are kept per source file. All other interleavings and stepping on concrete programs are not decided.", "§4 C19"),
  "C20": ("ownership/escape rule for Arc::try_unwrap + call-graph rules for blocking primitives + self-deadlock analysis over lock guards (MIR must-liveness)",
          "No force-unwrapped Arc::try_unwrap on an Arc whose clone another long-lived owner keeps; no joined thread can sit in a blocking accept; shutdown notifies handlers "
-         "before answering, never waits on another thread while doing so, and the debug session listens for it and completes the selected operation; no thread asks for a lock it already holds; a thread that its owner joins has no untimed wait the owner does not wake; the exit status does not depend on the debugger thread (no forced join result, no explicit panic reachable from the session loop outside a table, no forced configuration); shutdown handlers registered late are signalled at once. Promptness and the cancellation of a step that never ends are not decided.", "§4 C20"),
+         "before answering, never waits on another thread while doing so, and the debug session listens for it and completes the selected operation; no thread asks for a lock it already holds; a thread that its owner joins has no untimed wait the owner does not wake; the exit status does not depend on the debugger thread (no forced join result, no explicit panic reachable from the session loop outside a table, no forced configuration); shutdown handlers registered late are signalled at once; sleeps reachable from joined threads are bounded constants. Promptness beyond that and the cancellation of a step that never ends are not decided.", "§4 C20"),
 }
 
 NA = {
